@@ -51,6 +51,11 @@ class TLCResult:
 
 
 def run_dir(name, clean=True):
+  alt = os.environ.get('VERIF_REPO', '/repo')
+  if alt != '/repo':
+    # runs against scratch trees (mutants, seeded changes) get their own directories so that they can run
+    # next to a run against /repo
+    name = '%s_alt_%s' % (name, os.path.basename(alt.rstrip('/')))
   d = os.path.join(RUN_ROOT, name)
   if clean and os.path.isdir(d):
     shutil.rmtree(d, ignore_errors=True)
